@@ -4,6 +4,7 @@ import ZapVerif.Proofs.CoreTrace
 import ZapVerif.Gen.FrontEnds
 import ZapVerif.Model.Deliver
 import ZapVerif.Props.C10
+import ZapVerif.Model.TransCEAddX
 /-! # C06 — Panic and Fatal always terminate, after the entry is written and flushed
 
 The front ends, their levels and every guard between an exported method and `Logger.check` are the regenerated
@@ -231,5 +232,47 @@ theorem CheckedEntry_Write_hook_matches_source (cs : List (Nat × List Val)) (eo
       · simp only [List.mem_cons, List.not_mem_nil, or_false] at he
         rcases he with rfl | rfl <;> simp [evErrLine, evErrSync, evHook, evPut, nm_fprintf, nm_sync, nm_hook, nm_put]
       · cases he
+
+end ZapVerif.C06
+
+/-! ## `CheckedEntry.After` / `Should` ARE the source (table `Gen/TransCEAdd.lean`)
+
+`Logger.check` installs the terminal behaviour with `ce = ce.After(ent, hook)`: on a nil entry (no core accepted the
+level) a fresh entry is created — which is why Panic/Fatal terminate even when nothing is written — and in every case
+the hook is stored in `after`, the field `CheckedEntry.Write` reads (`CheckedEntry_Write_hook_matches_source`). -/
+namespace ZapVerif.C06
+set_option linter.unusedSimpArgs false
+open ZapVerif.GoMini
+
+theorem After_matches_source (isnil dirty : Bool) (eo after cores : List Val) (entry self ent : Val) (hook : List Val)
+    (fuel : Nat) :
+    run TransCEAdd.X (fuel + 1) "After" [ent, .list hook] (TransCEAdd.ceFld isnil dirty eo after cores entry self) =
+      .done [self] (if isnil then TransCEAdd.ceFld false false [] hook [] ent self
+                    else TransCEAdd.ceFld false dirty eo hook cores entry self) := by
+  refine run_of_fin TransCEAdd.X _ _ Gen.TransCEAdd.After [ent, .list hook] _ _ _ rfl rfl ?_
+  show (exec TransCEAdd.X (fuel + 1) Gen.TransCEAdd.After_body ⟨[("p0", ent), ("p1", .list hook)], _⟩).fin = _
+  rw [exec_succ]
+  cases isnil <;> simp [Gen.TransCEAdd.After_body, TransCEAdd.X]
+
+/-- `Should` (the deprecated spelling) is `After` -/
+theorem Should_matches_source (isnil dirty : Bool) (eo after cores : List Val) (entry self ent : Val) (hook : List Val)
+    (fuel : Nat) :
+    run TransCEAdd.X (fuel + 2) "Should" [ent, .list hook] (TransCEAdd.ceFld isnil dirty eo after cores entry self) =
+      .done [self] (if isnil then TransCEAdd.ceFld false false [] hook [] ent self
+                    else TransCEAdd.ceFld false dirty eo hook cores entry self) := by
+  refine run_of_fin TransCEAdd.X _ _ Gen.TransCEAdd.Should [ent, .list hook] _ _ _ rfl rfl ?_
+  show (exec TransCEAdd.X (fuel + 2) Gen.TransCEAdd.Should_body ⟨[("p0", ent), ("p1", .list hook)], _⟩).fin = _
+  rw [exec_succ]
+  have h : ∀ σ : State, retK σ [.loc "l0"] "After"
+      (exec TransCEAdd.X (fuel + 1) Gen.TransCEAdd.After_body
+        ⟨[("p0", ent), ("p1", .list hook)], TransCEAdd.ceFld isnil dirty eo after cores entry self⟩) =
+      .normal (({ σ with fld := (if isnil then TransCEAdd.ceFld false false [] hook [] ent self
+                    else TransCEAdd.ceFld false dirty eo hook cores entry self) } : State).assign1 (.loc "l0") self) := by
+    intro σ
+    refine retK_of_fin1 σ _ _ _ _ _ ?_
+    rw [exec_succ]
+    cases isnil <;> simp [Gen.TransCEAdd.After_body, TransCEAdd.X]
+  have hf : TransCEAdd.X.funs = Gen.TransCEAdd.funs := rfl
+  cases isnil <;> simp [Gen.TransCEAdd.Should_body, hf, h]
 
 end ZapVerif.C06
